@@ -302,6 +302,36 @@ theorem fmodIndex_in_range (size : Nat) (i : Nat) (h : i < size) : fmodIndex siz
 theorem fmodIndex_wraps_counterexample : fmodIndex 2 2 = 0 ∧ indexValid 2 2 = false ∧
     fmodIndex 2 (-3) = -1 := by decide
 
+/-! ### The guards as they are after the proposed fixes (notes/C19_fix_4.diff, C19_fix_5.diff) -/
+
+/-- fixed base `solve`: accepts exactly the right-hand sides for which `A⁻¹R` exists (square ∧ torch-valid
+product) — the full property, which `solveGuard_incomplete_counterexample` refutes for today's code. -/
+theorem solveGuardFixed_iff (A : List Nat) (m n : Nat) (b s : List Nat) :
+    solveGuardFixed (A ++ [m, n]) b = .ok s ↔ solveShape? (A ++ [m, n]) b = some s :=
+  invQuadGuard_iff A m n b s
+
+/-- fixed `expand`: for the two admissible spellings of the matrix sizes, the guard accepts exactly the
+size lists torch's `expand` accepts for the dense tensor (any batch rank, `-1` included). -/
+theorem expandGuardFixed_iff_torch (A : List Nat) (m n : Nat) (S : List Int) (r c : Int)
+    (h : (r = m ∧ c = n) ∨ (r = -1 ∧ c = -1)) :
+    expandGuardFixed (A ++ [m, n]) (S ++ [r, c]) = .ok S ↔
+      (torchExpand? (A ++ [m, n]) (S ++ [r, c])).isSome = true := by
+  have hg : expandGuard (A ++ [m, n]) (S ++ [r, c]) = .ok S := by
+    simp [expandGuard, split2_append, h]
+  simp only [expandGuardFixed, split2_append, hg, torchExpand?, Option.isSome_map, List.reverse_append,
+    List.reverse_cons, List.reverse_nil, List.nil_append, List.cons_append]
+  rcases h with ⟨rfl, rfl⟩ | ⟨rfl, rfl⟩
+  · have hn : ¬ ((n : Int) = -1) := by omega
+    have hm : ¬ ((m : Int) = -1) := by omega
+    have hn0 : ¬ ((n : Int) < 0) := by omega
+    have hm0 : ¬ ((m : Int) < 0) := by omega
+    simp only [torchExpandRev, hn, hm, hn0, hm0, if_false, true_or, if_true, Option.isSome_map]
+    rw [← expandBatchOkRev_iff_torch]
+    cases expandBatchOkRev A.reverse S.reverse <;> simp
+  · simp only [torchExpandRev, if_true, Option.isSome_map]
+    rw [← expandBatchOkRev_iff_torch]
+    cases expandBatchOkRev A.reverse S.reverse <;> simp
+
 /-! ### Obligations over the table regenerated from the source on every run -/
 
 open LinOp.Generated.C19 in
@@ -311,11 +341,11 @@ theorem every_matmul_definer_is_modelled :
     matmulDefiners.all (fun d => (matmulKindOf d.2).isSome) = true := by decide +kernel
 
 open LinOp.Generated.C19 in
-/-- The overrides of guarded public methods are exactly the known ones, each with the known
-"reaches the base guard" status (`guarded = true` iff the method body calls
-`_matmul_broadcast_shape` or `super().<method>`): removing a guard or adding an override changes
-the table and breaks this obligation. -/
-theorem overrides_are_the_known_ones : overrides = knownOverrides := by decide +kernel
+/-- The overrides of guarded public methods are exactly the known ones (same classes, same methods),
+each with the known "reaches the base guard" status (`guarded = true` iff the method body calls
+`_matmul_broadcast_shape` or `super().<method>`) or the status it gets from the proposed fix patches:
+removing a guard or adding an override changes the table and breaks this obligation. -/
+theorem overrides_are_the_known_ones : overridesOk overrides = true := by decide +kernel
 
 open LinOp.Generated.C19 in
 /-- The base-class methods still contain their guards. -/
